@@ -274,6 +274,8 @@ class Source:
                 job.doc["who"] = job.id
                 job.doc["sp"] = j["sp"]
                 job.doc["nested"] = {"k": [1, 2.5, "x", None, True]}
+            if "sel" in j:
+                job.doc["sel"] = j["sel"]          # read by the command line filter `-f doc.sel true`
             with open(job.fn("top.txt"), "w") as f:
                 f.write("top of " + job.id)
             if j["nested"]:
